@@ -1,4 +1,4 @@
-import MxModel.Proofs.StructMechLive
+import MxModel.Proofs.StructMechRename
 /-!
 # The definitions of a reachable state, read off the history
 
@@ -6,8 +6,9 @@ import MxModel.Proofs.StructMechLive
 definitions of the state reached are exactly those the ACCEPTED operations of the history made and no
 later accepted operation removed (`defd_run`) - computed by `specDefs`, which looks at the mechanism's
 state only to decide acceptance (`St.accepts`) and the name an unnamed cells gets (`St.cellsName`), never
-at its member tables.  `renameCells` is excluded (its effect on the definitions named `old` / `new` is
-stated only as a frame, `renameCells_spec`).
+at its member tables - except for `renameCells`, whose targets (`St.renameTargets`: the cells of the space,
+the copies derived from it, the overriding cells of sub spaces) and whose collisions with an existing cells
+of the new name are read off the state (`renameCells_full`).
 -/
 namespace MxModel.SM
 open MxModel.C3
@@ -25,11 +26,13 @@ def updDefs (kw : List String) (st : St) (d : Defs) : Op → Defs
   | .delCells p name => fun a q n => if q = p ∧ a = .cells ∧ n = name then none else d a q n
   | .setRef p name v => fun a q n => if q = p ∧ a = .refs ∧ n = name then some v else d a q n
   | .delRef p name => fun a q n => if q = p ∧ a = .refs ∧ n = name then none else d a q n
+  | .renameCells p old new => fun a q n =>
+      if a = .cells ∧ q ∈ st.renameTargets p old then
+        (if n = old then none
+         else if n = new then (if (st.mem .cells q new).isSome then d .cells q new else d .cells q old)
+         else d .cells q n)
+      else d a q n
   | _ => d
-
-def Op.isRename : Op → Bool
-  | .renameCells _ _ _ => true
-  | _ => false
 
 /-- the definitions after a history, from the empty model: only accepted operations count -/
 def specDefs (kw : List String) : St → Defs → List Op → Defs
@@ -38,7 +41,7 @@ def specDefs (kw : List String) : St → Defs → List Op → Defs
     if st.accepts kw op then specDefs kw (st.step kw op).1 (updDefs kw st d op) ops
     else specDefs kw st d ops
 
-theorem defd_step (kw : List String) (st : St) (hk : KeysOK st) (op : Op) (hr : op.isRename = false)
+theorem defd_step (kw : List String) (st : St) (hi : Inv st) (op : Op)
     (d : Defs) (hd : ∀ a q n, st.defd a q n = d a q n) :
     ∀ a q n, (st.step kw op).1.defd a q n = (if st.accepts kw op then updDefs kw st d op else d) a q n := by
   intro a q n
@@ -48,7 +51,7 @@ theorem defd_step (kw : List String) (st : St) (hk : KeysOK st) (op : Op) (hr : 
   | none => simp only [Option.isSome_none, Bool.false_eq_true, if_false]; exact hd a q n
   | some st' =>
     simp only [Option.isSome_some, if_true]
-    have E := apply_spec kw st st' hk op hop
+    have E := apply_spec kw st st' hi.wf.keys op hop
     cases op with
     | newSpace parent name bases refs =>
       obtain ⟨_, _, _, _, hdefs⟩ := E
@@ -57,7 +60,11 @@ theorem defd_step (kw : List String) (st : St) (hk : KeysOK st) (op : Op) (hr : 
     | newCells p name fname v => simp only [updDefs]; rw [E.2 a q n, hd a q n]
     | setFormula p name v => simp only [updDefs]; rw [E.2 a q n, hd a q n]
     | delCells p name => simp only [updDefs]; rw [E.2 a q n, hd a q n]
-    | renameCells p old new => cases hr
+    | renameCells p old new =>
+      simp only [updDefs]
+      rw [(renameCells_full kw st st' hi p old new hop).2 a q n]
+      unfold renamedDef
+      rw [hd a q n, hd .cells q new, hd .cells q old, hd .cells q n]
     | addBases p bs => simp only [updDefs]; rw [E.defs a q n, hd a q n]
     | removeBases p bs => simp only [updDefs]; rw [E.defs a q n, hd a q n]
     | setRef p name v => simp only [updDefs]; rw [E.2 a q n, hd a q n]
@@ -70,23 +77,22 @@ theorem defd_step (kw : List String) (st : St) (hk : KeysOK st) (op : Op) (hr : 
       rw [← hd a q n]; unfold St.defd St.mem St.find; rw [E.1]
 
 theorem defd_run_from (kw : List String) : ∀ (ops : List Op) (st : St) (d : Defs), Inv st →
-    (∀ op ∈ ops, op.isRename = false) → (∀ a q n, st.defd a q n = d a q n) →
+    (∀ a q n, st.defd a q n = d a q n) →
     ∀ a q n, (St.run kw st ops).defd a q n = specDefs kw st d ops a q n := by
   intro ops
   induction ops with
-  | nil => intro st d _ _ hd a q n; exact hd a q n
+  | nil => intro st d _ hd a q n; exact hd a q n
   | cons op ops ih =>
-    intro st d hi hr hd a q n
+    intro st d hi hd a q n
     unfold St.run
     simp only [List.foldl_cons]
-    have hstep := defd_step kw st hi.wf.keys op (hr op (by simp)) d hd
+    have hstep := defd_step kw st hi op d hd
     have hi' := inv_step kw st op hi
-    have hr' : ∀ o ∈ ops, o.isRename = false := fun o ho => hr o (List.mem_cons_of_mem _ ho)
     unfold specDefs
     cases hacc : st.accepts kw op with
     | true =>
       simp only [if_true]
-      exact ih (st.step kw op).1 _ hi' hr' (fun a q n => by rw [hstep a q n, hacc]; rfl) a q n
+      exact ih (st.step kw op).1 _ hi' (fun a q n => by rw [hstep a q n, hacc]; rfl) a q n
     | false =>
       simp only [Bool.false_eq_true, if_false]
       have hsame : (st.step kw op).1 = st := by
@@ -97,13 +103,12 @@ theorem defd_run_from (kw : List String) : ∀ (ops : List Op) (st : St) (d : De
         | none => rfl
         | some _ => rw [hop] at this; cases this
       rw [hsame]
-      exact ih st d hi hr' hd a q n
+      exact ih st d hi hd a q n
 
 /-- **the definitions of a reachable state are exactly those the accepted operations of the history made
-and did not remove** (histories without `renameCells`) -/
-theorem defd_run (kw : List String) (ops : List Op) (hr : ∀ op ∈ ops, op.isRename = false)
-    (a : Attr) (q : Path) (n : String) :
+and did not remove** (every history) -/
+theorem defd_run (kw : List String) (ops : List Op) (a : Attr) (q : Path) (n : String) :
     (St.run kw {} ops).defd a q n = specDefs kw {} (fun _ _ _ => none) ops a q n :=
-  defd_run_from kw ops {} _ inv_empty hr (fun a q n => St.defd_of_not_mem _ a q n (by simp [St.ids])) a q n
+  defd_run_from kw ops {} _ inv_empty (fun a q n => St.defd_of_not_mem _ a q n (by simp [St.ids])) a q n
 
 end MxModel.SM
